@@ -6,6 +6,7 @@ import sys
 REPO = os.environ.get("VERIF_REPO", "/repo")
 sys.path.insert(0, REPO)
 
+from twisted.internet import defer                          # noqa: E402
 from twisted.internet.address import IPv4Address            # noqa: E402
 from twisted.python import failure, log                     # noqa: E402
 from twisted.test import proto_helpers                      # noqa: E402
@@ -19,6 +20,7 @@ import simtor                                                # noqa: E402
 assert os.path.abspath(txtorcon.__file__).startswith(os.path.abspath(REPO)), txtorcon.__file__
 
 SID = "sidsidsidsidsid3"
+WARM_PORT = "Port=8080,127.0.0.1:18080"
 REPLY_KEY = ["ED25519-V3", "UmVwbHlLZXk="]
 
 
@@ -86,6 +88,8 @@ def vector(req):
     def add_onion(line):
         adds.append(line)
         sid = SID if len(adds) > warm[0] else "warmupwarmupwar3"
+        if req.get("viator"):
+            sid = "warmupwarmupwar3" if WARM_PORT in line else SID
         out = "250-ServiceID=%s\r\n250-PrivateKey=%s:%s\r\n" % (sid, REPLY_KEY[0], REPLY_KEY[1])
         for tok in line.split()[1:]:
             if tok.startswith("ClientAuth=") and ":" not in tok:
@@ -101,9 +105,11 @@ def vector(req):
     sim.handlers["DEL_ONION"] = del_onion
     proto.makeConnection(tr)
     sim.pump()
-    d = TorConfig.from_protocol(proto)
-    sim.pump()
-    config = d.result
+    config = None
+    if not req.get("viator"):
+        d = TorConfig.from_protocol(proto)
+        sim.pump()
+        config = d.result
     reactor = PortReactor(lazy=bool(req.get("asyncports")))
     key = req["key"]
     if key["kind"] == "none":
@@ -143,6 +149,25 @@ def vector(req):
                 reactor.given[:] = []
             d = EphemeralAuthenticatedOnionService.create(reactor, config, ports, detach=req["detach"], private_key=pk,
                                                           version=req["version"], auth=auth, single_hop=req["single"])
+        elif req.get("viator"):
+            # through Tor.create_onion_service on a Tor object whose configuration is not loaded yet, while another
+            # request of the same kind is being made: both wait for the one configuration bootstrap
+            tor = txtorcon.Tor(reactor, proto)
+            sim.hold = lambda line: line == "GETINFO config/names"
+            w = tor.create_onion_service(["8080 127.0.0.1:18080"], version=req["version"])
+            w.addErrback(lambda f: None)
+            d = tor.create_onion_service(ports, private_key=pk, version=req["version"], single_hop=req["single"],
+                                         detach=req["detach"])
+            d.addBoth(fired.append)
+            reactor.turn()
+            sim.pump()
+            sim.hold = None
+            sim.release()
+            reactor.turn()
+            sim.pump()
+            sim.event("650 HS_DESC UPLOAD warmupwarmupwar3 UNKNOWN $%s desc\r\n" % ("CD" * 20))
+            sim.event("650 HS_DESC UPLOADED warmupwarmupwar3 UNKNOWN $%s\r\n" % ("CD" * 20))
+            d = defer.Deferred()        # (already wired above)
         else:
             d = EphemeralOnionService.create(reactor, config, ports, detach=req["detach"], private_key=pk,
                                              version=req["version"], single_hop=req["single"])
@@ -166,6 +191,8 @@ def vector(req):
             except StopIteration:
                 p["loc"] = "?"
     adds = adds[warm[0]:]
+    if req.get("viator"):
+        adds = [a for a in adds if WARM_PORT not in a]        # (the two requests' commands may go out in either order)
     obs = dict(rejected=rejected, nadd=len(adds), key=["", ""], ports=[], flags=[], cauth=[], hostname="", stored=[],
                sid=SID, replykey=REPLY_KEY, **{"del": ""})
     if adds:
@@ -187,7 +214,7 @@ def vector(req):
     onion = None
     if fired and not isinstance(fired[0], failure.Failure):
         onion = fired[0]
-    elif config.EphemeralOnionServices:
+    elif config is not None and config.EphemeralOnionServices:
         onion = config.EphemeralOnionServices[-1]
     if onion is not None and not rejected:
         obs["hostname"] = onion.hostname or ""
